@@ -84,12 +84,41 @@ def cmd_verify(a):
         shutil.rmtree(d, ignore_errors=True)
 
 
+def cmd_recheck(a):
+    """Re-confirm every stored seed against the current /repo: the patch must apply and the demo must still fail with it
+    and pass without it.  A seed whose demo no longer fails was neutralised by a later repair of /repo (recorded in meta)."""
+    for mf in sorted(glob.glob(os.path.join(ROOT, "seeded", "*", "meta.json"))):
+        meta = json.load(open(mf))
+        sd = os.path.dirname(mf)
+        try:
+            d = scratch_with_patch(os.path.join(sd, "patch.diff"))
+        except SystemExit as e:
+            meta["current_tree"] = {"status": "patch no longer applies", "detail": str(e)[:200]}
+            json.dump(meta, open(mf, "w"), indent=1)
+            print(meta["id"], "PATCH-DOES-NOT-APPLY")
+            continue
+        try:
+            rw = subprocess.run([PY, os.path.join(sd, "demo.py")], env=dict(os.environ, PYTHONPATH=d), capture_output=True, text=True, cwd=d)
+            ro = subprocess.run([PY, os.path.join(sd, "demo.py")], env=dict(os.environ, PYTHONPATH=REPO), capture_output=True, text=True, cwd=d)
+            ok = rw.returncode != 0 and ro.returncode == 0
+            meta["current_tree"] = {"status": "breaks the property" if ok else "neutralised by a later repair of /repo (demo no longer fails with the patch)" if rw.returncode == 0 else "demo fails on the unchanged tree",
+                                    "demo_with_change_exit": rw.returncode, "demo_without_change_exit": ro.returncode}
+            json.dump(meta, open(mf, "w"), indent=1)
+            print(f"{meta['id']:50s} {'VALID' if ok else 'NEUTRALISED' if rw.returncode == 0 else 'DEMO-FAILS-ON-TREE'}")
+        finally:
+            shutil.rmtree(d, ignore_errors=True)
+    return 0
+
+
 def cmd_run(a):
     seeds = sorted(glob.glob(os.path.join(ROOT, "seeded", "*", "meta.json")))
     bad = 0
     for mf in seeds:
         meta = json.load(open(mf))
         if a.only and meta["id"] not in a.only.split(","):
+            continue
+        if meta.get("current_tree", {}).get("status", "breaks the property") != "breaks the property":
+            print(f"{meta['id']:44s} skipped: {meta['current_tree']['status']}")
             continue
         d = scratch_with_patch(os.path.join(os.path.dirname(mf), "patch.diff"))
         try:
@@ -110,6 +139,7 @@ def cmd_run(a):
 ap = argparse.ArgumentParser()
 sub = ap.add_subparsers(dest="cmd")
 v = sub.add_parser("verify"); v.add_argument("worktree"); v.add_argument("seed_id"); v.add_argument("property"); v.add_argument("--needs", default="")
+sub.add_parser("recheck")
 r = sub.add_parser("run"); r.add_argument("--only"); r.add_argument("--tier", default="quick"); r.add_argument("--all-checks", action="store_true")
 a = ap.parse_args()
-sys.exit(cmd_verify(a) if a.cmd == "verify" else cmd_run(a))
+sys.exit(cmd_verify(a) if a.cmd == "verify" else cmd_recheck(a) if a.cmd == "recheck" else cmd_run(a))
